@@ -23,6 +23,9 @@ type Config struct {
 	EntityOnly  bool // every file holds exactly one entity (C17 profile)
 	ProtoFiles  bool // hand-written .proto files in local packages
 	Rules       bool // attach validation rules (subset that every field type accepts)
+	// EnumInRules: inline enum fields with >= 2 options get (by chance) a rules.in / rules.notIn list that names >= 2
+	// distinct options and REPEATS one of them, bare and with the prefix (both spellings are accepted: `EnumRef.mapValues`)
+	EnumInRules bool
 	OddEntNames bool // entity names where ToCamel(name+"State") != ToCamel(name)+"State"
 	Capture     bool // allow inline names equal to an ancestor's name
 	ListMethods bool // some methods take a j5.list.v1.QueryRequest and answer one array of objects
@@ -38,6 +41,8 @@ func DefaultConfig() Config {
 type Gen struct {
 	R   *rand.Rand
 	Cfg Config
+	// EnumInRuleCount: how many in / notIn rules with a repeated option were generated (Cfg.EnumInRules)
+	EnumInRuleCount int
 
 	// per package state
 	pkgName   string
@@ -918,6 +923,10 @@ func (g *Gen) typed(kind, propName string, depth int, path []string, taken map[s
 			t.Nums = nil
 		}
 		f.Ref = t
+		if g.Cfg.EnumInRules && len(t.Opts) >= 2 && g.chance(1, 2) {
+			f.Rules = append(f.Rules, g.enumInRule(effPfx, t.Opts))
+			g.EnumInRuleCount++
+		}
 		if g.chance(1, 5) {
 			// list rules with default filters naming options of the enum, bare or with the prefix
 			f.HasList = true
@@ -1397,4 +1406,34 @@ func (g *Gen) FreshDecl(idx int) *Elem {
 	default:
 		return &Elem{Kind: KObject, Object: &Object{Name: base + "Object", Props: g.freshScalarProps(1+g.n(2), "F")}}
 	}
+}
+
+// enumInRule: `in` / `notIn` over the options of an enum with a repeated option. Every option may be written bare
+// or with the enum's prefix; the list names at least two distinct options, one of them twice (once in each
+// spelling, or twice the same), in random order.
+func (g *Gen) enumInRule(effPfx string, opts []string) Rule {
+	spell := func(o string, other bool) string {
+		bare := strings.TrimPrefix(o, effPfx)
+		if other == strings.HasPrefix(o, effPfx) {
+			return bare
+		}
+		return effPfx + bare
+	}
+	idx := g.R.Perm(len(opts))
+	n := 2 + g.n(len(opts)-2)
+	var vals []string
+	for _, i := range idx[:n] {
+		vals = append(vals, spell(opts[i], g.chance(1, 2)))
+	}
+	// the repeats
+	for k, m := 0, 1+g.n(1); k < m; k++ {
+		o := opts[idx[g.n(n-1)]]
+		vals = append(vals, spell(o, g.chance(1, 2)))
+	}
+	g.R.Shuffle(len(vals), func(i, j int) { vals[i], vals[j] = vals[j], vals[i] })
+	name := "in"
+	if g.chance(1, 3) {
+		name = "notIn"
+	}
+	return Rule{Name: name, Lit: Lit{Kind: "strs", Strs: vals}}
 }
